@@ -129,6 +129,19 @@ def run_slice(job: dict) -> dict:
                     viol("trichotomy", a=fmt(a), b=fmt(b), lt=lt, eq=eq, gt=gt,
                          model="a<=b" if le and not ge else ("b<=a" if ge and not le else ("equal" if le else "unordered")))
                     continue
+                # the derived operators agree with <, == (update_min uses <=, progress.py uses >=)
+                A = TI(*a[2], cutoff=a[1], pre_length=a[0])
+                B = TI(*b[2], cutoff=b[1], pre_length=b[0])
+                try:
+                    derived = (bool(A <= B), bool(A >= B), bool(A != B))
+                except Exception as e:  # noqa: BLE001
+                    viol("comparison_raised", a=fmt(a), b=fmt(b), error=f"derived operator: {type(e).__name__}: {e}")
+                    continue
+                C["derived_operators_checked"] += 1
+                if derived != (lt or eq, gt or eq, not eq):
+                    viol("derived_operator_inconsistent", a=fmt(a), b=fmt(b), lt=lt, eq=eq, gt=gt,
+                         le_ge_ne=list(derived))
+                    continue
                 C["lt_implies_pointwise_checked"] += 1
                 if lt and not le:
                     viol("smaller_delay_later_arrival", a=fmt(a), b=fmt(b), claimed="a<b",
@@ -272,8 +285,8 @@ def replay(rep: dict) -> List[dict]:
     from mosaik.tiered_time import TieredInterval as TI
     v = rep["violation"]
     out = []
-    if "a" in v and "b" in v and v["kind"] in ("trichotomy", "smaller_delay_later_arrival",
-                                               "incomparable_but_pointwise_ordered"):
+    if "a" in v and "b" in v and v["kind"] in ("trichotomy", "smaller_delay_later_arrival", "not_antisymmetric",
+                                               "incomparable_but_pointwise_ordered", "derived_operator_inconsistent"):
         a = (v["a"]["pre_length"], v["a"]["cutoff"], tuple(v["a"]["tiers"]))
         b = (v["b"]["pre_length"], v["b"]["cutoff"], tuple(v["b"]["tiers"]))
         r = cmp_real(TI, a, b)
@@ -283,7 +296,12 @@ def replay(rep: dict) -> List[dict]:
                 out.append(dict(v))
         elif isinstance(r, tuple) and r[0] != "error":
             lt, eq, gt = r
-            if (lt, eq, gt).count(True) != 1 or (lt and not le) or (gt and not ge):
+            A = TI(*a[2], cutoff=a[1], pre_length=a[0])
+            B = TI(*b[2], cutoff=b[1], pre_length=b[0])
+            rb = cmp_real(TI, b, a)
+            if (lt, eq, gt).count(True) != 1 or (lt and not le) or (gt and not ge) or \
+                    (bool(A <= B), bool(A >= B), bool(A != B)) != (lt or eq, gt or eq, not eq) or \
+                    (isinstance(rb, tuple) and rb[0] != "error" and (rb[2] != lt or rb[0] != gt or rb[1] != eq)):
                 out.append(dict(v))
     return out
 
@@ -305,7 +323,7 @@ def evidence(m, tier, seed):
     return {"level": "exploration", "coverage": {
         "rule": "all TieredInterval shapes (pre_length, cutoff, length <= 3) x all tier values in 0..maxval; every ordered "
                 "pair of equal shape is compared with the real operators and with the pointwise order of the "
-                "semantic model over all departure times in [0,maxval+1]^pre_length; all chaining pairs for the action "
+                "semantic model over all departure times in [0,maxval+1]^pre_length; <=, >=, != agree with <, ==, >; all chaining pairs for the action "
                 "law; distinct_nontrivial = distinct ordered pairs the implementation accepted as comparable",
         "exhaustive": True,
         "transitivity_exhaustive": bool(c.get("transitivity_exhaustive")),
